@@ -322,8 +322,9 @@ def write_evidence(h: Harness, mod, wall: float, nviol: int) -> None:
         "coverage": cov, "assumptions": list(getattr(mod, "ASSUMPTIONS", [])),
         "wall_s": round(wall, 2), "violations": nviol,
     }
-    os.makedirs(os.path.join(ROOT, "evidence"), exist_ok=True)
-    path = os.path.join(ROOT, "evidence", f"{h.pid}.json")
+    evdir = os.environ.get("VT_EVIDENCE_DIR") or os.path.join(ROOT, "evidence")  # override: scratch runs
+    os.makedirs(evdir, exist_ok=True)
+    path = os.path.join(evdir, f"{h.pid}.json")
     tmp = path + ".tmp"
     with open(tmp, "w") as f:
         json.dump(ev, f, indent=1, sort_keys=True, default=repr)
@@ -400,7 +401,7 @@ def main(argv=None) -> int:
 
 def _finish(h: Harness, mod, t0: float, replay_only: bool = False) -> int:
     pid = h.pid
-    outdir = os.path.join(ROOT, "out", "replays", pid)
+    outdir = os.path.join(os.environ.get("VT_OUT_DIR") or os.path.join(ROOT, "out"), "replays", pid)
     nviol = len(h.violations)
     for e in load_known(pid):
         if e.get("status") == "known" and h.known_hits.get(e["id"], 0) > 0:
